@@ -252,7 +252,12 @@ var _ = pr.AutoF
 //@   props C13
 //@   modifies anything
 //@   ensures result.tableMinContentWidth <= result.tableMaxContentWidth
-//@   trusted "min-content <= max-content of the intrinsic width computation is assumed, not proved"
+//@   assumeensures "min-content <= max-content of the intrinsic width computation is assumed, not proved"
+//@   unclaimed call-*-pre* "box and style accessors on table boxes"
+// CSS 2.1 §17.5.2.2: the used width of a table is the greater of its specified width W and its minimum: a
+// width given in px is the floor of the width the table reports
+//@   let w = table.Style.GetWidth()
+//@   call adjust#3 assert[specified-width-is-the-minimum] w.S != "auto" && w.Unit == pr.Px ==> arg2 == w.Value
 
 // Automatic table layout (css-tables-3 §3.9): whatever the distribution of widths over the
 // columns, the used width of the table is never smaller than the minimum content width of
@@ -522,6 +527,8 @@ func vBreakLineOrphansWidows() (int, []string) {
 //@   call SetJustification#1 assert arg1 == justificationSpacing
 //@   call addWordSpacing#1 assert[advance-threaded] arg1 == child && arg2 == justificationSpacing && arg3 == xAdvance
 //@   call Translate#1 assert[atomic-shifted] arg1 == box_ && arg2 == xAdvance && arg3 == 0
+// a line or inline box grows by what the spaces INSIDE it absorbed (the advance on exit minus the advance on entry)
+//@   assert after box.Width#1: pr.VV(box.Width) == pr.VV(prev) + xAdvance - old(xAdvance)
 
 // CSS Text 3 §4.1.2: a sequence of collapsible spaces at the end of a line is removed: white-space normal,
 // nowrap and pre-line collapse, pre / pre-wrap / break-spaces preserve. The function leaves the trailing
